@@ -438,14 +438,14 @@ def nr_get_root(fn,x_min,x_max,epsilon):
            "fn() must return an UncertainReal, got: %s" % type(f_x)
     
     if abs( fl ) < epsilon:
-        return fl,f_x.sensitivity(x)
+        return lower,f_x.sensitivity(x)
     
     x = ureal(upper,1.0)
     f_x = fn(x) 
     fu = value(f_x)
 
     if abs( fu ) < epsilon:
-            return fu,f_x.sensitivity(x)
+            return upper,f_x.sensitivity(x)
 
     if fl * fu >= 0.0:
         raise RuntimeError(
